@@ -178,6 +178,7 @@ CHECKS["C05"] = {
         H("c05.VH_server", {"ROUNDS": 2, "TIMEOUTS": 2}, {"ROUNDS": 3, "TIMEOUTS": 4}, covers=["server handled", "route handler ran"], validate=False, weight=2),
         H("c05.VH_tcp_after_match", {"ROUNDS": 2, "TIMEOUTS": 2}, {"ROUNDS": 3, "TIMEOUTS": 4}, covers=["non-terminal route ran", "matching timed out"], validate=False, weight=2, env_only=True),
         H("c05.VH_udp_rearm", {}, {}, covers=["udp read timed out"], validate=False, env_only=True),
+        H("c05.VH_udp_after_match", {"TIMEOUTS": 2}, {"TIMEOUTS": 4}, covers=["udp handler read ended"], validate=False, env_only=True),
         H("c01.VH_prefetch_step", {}, {}, covers=["buffer full", "read in place", "read through a pooled chunk"]),
         H("c05.VH_udp_deadline", {}, {}, covers=["udp read timed out"], validate=False),
         H("c05.VH_udp_data", {}, {}, covers=["udp data delivered"], validate=False),
@@ -219,13 +220,13 @@ CHECKS["C14"] = {
     "harnesses": [
         H("c14.VH_ssh", {}, {}, covers=_c14), H("c14.VH_xmpp", {}, {}, covers=_c14), H("c14.VH_proxyproto", {}, {}, covers=_c14),
         H("c14.VH_socks4", {}, {}, covers=_c14), H("c14.VH_socks4_filter", {}, {}, covers=_c14),
-        H("c14.VH_socks5", {}, {}, covers=_c14), H("c14.VH_socks5_filter", {}, {}, covers=_c14),
+        H("c14.VH_socks5", {}, {}, covers=_c14), H("c14.VH_socks5_filter", {}, {}, covers=_c14), H("c14.VH_socks5_unsorted", {}, {}, covers=_c14),
         H("c14.VH_regexp", {}, {}, covers=_c14), H("c14.VH_wireguard", {}, {}, covers=_c14), H("c14.VH_wireguard_zero", {}, {}, covers=_c14),
         H("c14.VH_postgres", {}, {}, covers=_c14 + ["startup message"], weight=2), H("c14.VH_ishttp", {}, {}, covers=_c14, weight=2),
         H("c14.VH_not", {}, {}, covers=_c14 + ["undecided"]), H("c14.VH_ip", {}, {}, covers=_c14),
         H("c14.VH_clock", {}, {}, covers=_c14, validate=False), H("c14.VH_dns_rules", {}, {}, covers=_c14),
         H("c14.VH_winbox", {}, {}, covers=_c14, weight=3), H("c14.VH_winbox_romon", {}, {}, covers=_c14, weight=3), H("c14.VH_winbox_user", {}, {}, covers=_c14, weight=3),
-        H("c14.VH_openvpn_plain_tcp", {}, {}, covers=_c14), H("c14.VH_openvpn_plain_udp", {}, {}, covers=_c14), H("c14.VH_rdp_negreq", {}, {}, covers=_c14, weight=2),
+        H("c14.VH_openvpn_plain_tcp", {}, {}, covers=_c14), H("c14.VH_openvpn_plain_udp", {}, {}, covers=_c14), H("c14.VH_rdp_negreq", {}, {}, covers=_c14, weight=2), H("c14.VH_rdp_corrinfo", {}, {}, covers=_c14, weight=3),
     ],
     "level_text": "bounded model checking against reference predicates written from the wire definitions (not from the matcher code): for every complete first message within the bound the real Match must accept every well-formed message that satisfies the configured filters and reject every message that violates a mandatory field or a filter; regions the definitions leave open are don't-care",
     "level_note": "decided for ssh, xmpp, proxy_protocol, socks4 (commands/ports/CIDRs), socks5 (method lists), regexp (cross-checks the engine's NFA model against a direct byte predicate), wireguard (+zero filter), postgres (SSLRequest, v3 startup, version and length violations), isHttp, not, remote_ip/local_ip (concrete v4/v6/v4-mapped addresses at CIDR boundaries), clock (symbolic second of day, 4 window/zone configurations incl. swap and 24:00), dns rule combination (class/type/name symbolic over a finite set; the third-party wire parser is replaced under the engine, the native twin packs and parses a real query), winbox single-chunk auth messages (user names of 1-5 bytes incl. the +r suffix, modes, user-name filter, parity, framing), openvpn plain mode over TCP and UDP, rdp connection requests carrying only an rdpNegReq (flags/protocol rules). Not decided: openvpn auth/crypt/crypt2 modes, multi-chunk winbox, rdp cookies/tokens/correlation info (their parsers are covered for safety/round-trip by C04/C18 and for fragmentation by C06), http beyond the request-line heuristic, quic",
@@ -323,6 +324,7 @@ CHECKS["C13"] = {
         H("c13.VH_listener", {"CONNS": 2, "L": 3}, {"CONNS": 3, "L": 3}, covers=["delivered and read", "consumed or rejected", "closed"], weight=3, **_envonly),
         H("c13.VH_listener", {"params": {"CONNS": 2, "L": 2}, "preempt": 1}, {"params": {"CONNS": 2, "L": 3}, "preempt": 2}, variant="preempt", covers=["delivered and read", "closed"], weight=5, **_envonly),
         H("c13.VH_listener_wrap", {"CONNS": 2, "L": 3}, {"CONNS": 2, "L": 4}, covers=["handler consumed the buffered bytes and wrapped", "delivered and read", "delivered after a handler consumed bytes"], weight=4, **_envonly),
+        H("c13.VH_listener", {"CONNS": 2, "L": 2, "NOREAD": 1}, {"CONNS": 3, "L": 3, "NOREAD": 1}, variant="noread", covers=["delivered and read", "closed"], weight=1, **_envonly),
         # a handler that wraps the connection before reading (tee, metering wrappers): the stream continues once, in order
         H("c01.VH_wrap_step", {}, {}, covers=["unread bytes at Wrap time", "read past the bytes buffered at Wrap time"]),
         H("c13.VH_close_pending", {"CONNS": 2}, {"CONNS": 3}, covers=["closed with pending connections"], **_envonly),
@@ -341,6 +343,8 @@ CHECKS["C08"] = {
         H("c01.VH_step_tee", {"MAXB": 3000}, {"MAXB": 5000}, covers=["recorder ran", "bytes buffered at handler time"], weight=8, validate=False),
         H("c01.VH_prefetch_step", {}, {}, covers=["read through a pooled chunk"]),
         H("c13.VH_listener_wrap", {"CONNS": 2, "L": 3}, {"CONNS": 2, "L": 4}, covers=["handler consumed the buffered bytes and wrapped", "delivered and read", "delivered after a handler consumed bytes"], weight=4, **_envonly),
+        # UDP: a half-read datagram's pooled buffer is not reused for the next datagram
+        H("c09.VH_partial", {}, {}, covers=["datagram read in pieces", "next datagram read"], **_envonly),
     ] + [
         # race mode: two goroutines through one provisioned matcher instance, same symbolic stream
         H("c08.VH_" + m, {"params": {"SAME": 1}, "race": True}, {"params": {"SAME": 1, "L": lt}, "race": True, "preempt": 1}, variant="race",
